@@ -31,82 +31,82 @@ theorem callUser_succ (fuel : Nat) (ctx : X.Ctx) (p : X.Proc) (vs : List Val) (s
   conv => lhs; unfold X.callUser
   rfl
 
-def bindF (fs : List X.Formal) (ws : List Word) : List (String × LBind) :=
-  List.zipWith (fun f w => (f.name, LBind.valF w)) fs ws
+/-- The binding a formal gets from its actual. -/
+def bindB : Val → LBind
+  | .int w => .valF w
+  | .arr r => .arrF r
 
-theorem bindFormals_vals : ∀ (fs : List X.Formal) (ws : List Word), fs.all isValFormal = true →
-    fs.length = ws.length → X.bindFormals fs (ws.map Val.int) = .ok (bindF fs ws) := by
+def bindF (fs : List X.Formal) (vs : List Val) : List (String × LBind) :=
+  List.zipWith (fun f v => (f.name, bindB v)) fs vs
+
+theorem bindFormals_ok : ∀ (fs : List X.Formal) (vs : List Val) (fb : List (String × LBind)),
+    X.bindFormals fs vs = .ok fb → fb = bindF fs vs ∧ fs.length = vs.length := by
   intro fs
   induction fs with
   | nil =>
-    intro ws _ hl
-    cases ws with
-    | nil => rfl
-    | cons w ws => simp at hl
+    intro vs fb h
+    cases vs with
+    | nil => simp only [X.bindFormals, Except.ok.injEq] at h; exact ⟨h.symm, rfl⟩
+    | cons v vs => simp [X.bindFormals] at h
   | cons f fs ih =>
-    intro ws hv hl
-    cases ws with
-    | nil => simp at hl
-    | cons w ws =>
-      simp only [List.all_cons, Bool.and_eq_true] at hv
-      simp only [List.length_cons, Nat.add_right_cancel_iff] at hl
+    intro vs fb h
+    cases vs with
+    | nil => cases f <;> simp [X.bindFormals] at h
+    | cons v vs =>
       cases f with
       | val n =>
-        simp only [List.map_cons, X.bindFormals, ih ws hv.2 hl]
-        rfl
-      | array n => simp [isValFormal] at hv
-      | proc n => simp [isValFormal] at hv
-      | func n => simp [isValFormal] at hv
+        cases v with
+        | int w =>
+          simp only [X.bindFormals, bind, Except.bind] at h
+          cases hr : X.bindFormals fs vs with
+          | error e => rw [hr] at h; simp at h
+          | ok r =>
+            rw [hr] at h
+            simp only [Except.ok.injEq] at h
+            obtain ⟨h1, h2⟩ := ih vs r hr
+            exact ⟨by rw [← h, h1]; rfl, by simp [h2]⟩
+        | arr r => simp [X.bindFormals] at h
+      | array n =>
+        cases v with
+        | int w => simp [X.bindFormals] at h
+        | arr a =>
+          simp only [X.bindFormals, bind, Except.bind] at h
+          cases hr : X.bindFormals fs vs with
+          | error e => rw [hr] at h; simp at h
+          | ok r =>
+            rw [hr] at h
+            simp only [Except.ok.injEq] at h
+            obtain ⟨h1, h2⟩ := ih vs r hr
+            exact ⟨by rw [← h, h1]; rfl, by simp [h2]⟩
+      | proc n => simp [X.bindFormals] at h
+      | func n => simp [X.bindFormals] at h
 
-theorem bindFormals_bad : ∀ (fs : List X.Formal) (ws : List Word), fs.all isValFormal = true →
-    fs.length ≠ ws.length → ∃ e, X.bindFormals fs (ws.map Val.int) = .error e := by
+theorem bindF_names : ∀ (fs : List X.Formal) (vs : List Val), fs.length = vs.length →
+    (bindF fs vs).map (·.1) = fs.map X.Formal.name := by
   intro fs
   induction fs with
-  | nil =>
-    intro ws _ hl
-    cases ws with
-    | nil => simp at hl
-    | cons w ws => exact ⟨_, rfl⟩
+  | nil => intro vs _; simp [bindF]
   | cons f fs ih =>
-    intro ws hv hl
-    simp only [List.all_cons, Bool.and_eq_true] at hv
-    cases f with
-    | val n =>
-      cases ws with
-      | nil => exact ⟨_, rfl⟩
-      | cons w ws =>
-        obtain ⟨e, he⟩ := ih ws hv.2 (by simpa using hl)
-        exact ⟨e, by simp only [List.map_cons, X.bindFormals, he]; rfl⟩
-    | array n => simp [isValFormal] at hv
-    | proc n => simp [isValFormal] at hv
-    | func n => simp [isValFormal] at hv
-
-theorem bindF_names : ∀ (fs : List X.Formal) (ws : List Word), fs.length = ws.length →
-    (bindF fs ws).map (·.1) = fs.map X.Formal.name := by
-  intro fs
-  induction fs with
-  | nil => intro ws _; simp [bindF]
-  | cons f fs ih =>
-    intro ws hl
-    cases ws with
+    intro vs hl
+    cases vs with
     | nil => simp at hl
-    | cons w ws =>
+    | cons w vs =>
       simp only [List.length_cons, Nat.add_right_cancel_iff] at hl
-      have := ih ws hl
+      have := ih vs hl
       simp only [bindF] at this ⊢
       simp [this]
 
-theorem bindF_lookup : ∀ (fs : List X.Formal) (ws : List Word) (n : String) (b : LBind), fs.length = ws.length →
-    (bindF fs ws).lookup n = some b →
-    ∃ k f, ∃ hk : k < ws.length, fs[k]? = some f ∧ f.name = n ∧ b = .valF ws[k] := by
+theorem bindF_lookup : ∀ (fs : List X.Formal) (vs : List Val) (n : String) (b : LBind), fs.length = vs.length →
+    (bindF fs vs).lookup n = some b →
+    ∃ k f, ∃ hk : k < vs.length, fs[k]? = some f ∧ f.name = n ∧ b = bindB vs[k] := by
   intro fs
   induction fs with
-  | nil => intro ws n b _ h; simp [bindF] at h
+  | nil => intro vs n b _ h; simp [bindF] at h
   | cons f fs ih =>
-    intro ws n b hl h
-    cases ws with
+    intro vs n b hl h
+    cases vs with
     | nil => simp at hl
-    | cons w ws =>
+    | cons w vs =>
       simp only [List.length_cons, Nat.add_right_cancel_iff] at hl
       simp only [bindF, List.zipWith_cons_cons, List.lookup_cons] at h
       split at h
@@ -114,7 +114,7 @@ theorem bindF_lookup : ∀ (fs : List X.Formal) (ws : List Word) (n : String) (b
         simp only [Option.some.injEq] at h
         have hn : n = f.name := by simpa using heq
         exact ⟨0, f, by simp, rfl, hn.symm, h.symm⟩
-      · obtain ⟨k, f', hk, h1, h2, h3⟩ := ih ws n b hl h
+      · obtain ⟨k, f', hk, h1, h2, h3⟩ := ih vs n b hl h
         exact ⟨k + 1, f', by simp; omega, by simpa using h1, h2, by simpa using h3⟩
 
 theorem lookup_none_of_not_mem {β} : ∀ (l : List (String × β)) (n : String), n ∉ l.map (·.1) → l.lookup n = none := by
@@ -166,8 +166,13 @@ theorem bindL_lookup : ∀ (ds : List X.Decl) (n : String) (b : LBind), (bindL d
 
 def StmtSpec (G : GCtx) (fuel : Nat) : Prop :=
   ∀ pi ∈ G.procs, ∀ sp dep hi, G.lo ≤ sp → sp + G.S pi + pi.po + pi.p.formals.length ≤ G.spv + 1 → G.spv ≤ sp + dep * G.smax →
-    ∀ s σ, okS5 G.pk G.pnames G.xc.impure s = true →
-      ExecS (KOf G pi sp dep hi) (G.iEpi pi) (optStmt (annotS (fun _ => none) s)) σ (X.exec fuel G.xc s σ)
+    ∀ s σ, okS5 G.pk G.pnames G.xc.impure G.rho s = true →
+      ExecS (KOf G pi sp dep hi) (G.iEpi pi) (optStmt (annotS G.rho s)) σ (X.exec fuel G.xc s σ)
+
+theorem GCtx.OK.rho_none {G : GCtx} (ok : G.OK) (n : String) (h : ∀ w, G.xc.genv.lookup n ≠ some (.val w)) : G.rho n = none := by
+  cases hr : G.rho n with
+  | none => rfl
+  | some w => exact absurd ((ok.rho_ok n w).mpr hr) (h w)
 
 /-- What an activation's memory says about the global state. -/
 theorem Rep.toG {G : GCtx} (ok : G.OK) {pi : PInfo} (hpi : pi ∈ G.procs) {sp dep : Nat} {hi : Nat → Word}
@@ -180,7 +185,8 @@ theorem Rep.toG {G : GCtx} (ok : G.OK) {pi : PInfo} (hpi : pi ∈ G.procs) {sp d
       show X.readName G.xc σ n = .ok (.int w)
       unfold X.readName
       rw [hl, hv, hg]
-    obtain ⟨a, hloc, _, hm⟩ := h.vars n w rfl hr
+    have hρ : (KOf G pi sp dep hi).ρ n = none := ok.rho_none n (by rw [hv]; simp)
+    obtain ⟨a, hloc, _, hm⟩ := h.vars n w hρ hr
     have : G.locOf pi sp n = some a := hloc
     rw [ok.gloc_ok pi hpi sp n hn] at this
     exact ⟨a, this, hm⟩
@@ -204,7 +210,7 @@ theorem GCtx.OK.not_inArr {G : GCtx} (ok : G.OK) (x : Nat) (h : x ≤ G.spv + 2)
   omega
 
 /-- The state of the reference semantics at the start of a callee's body. -/
-def calleeSt (st : X.St) (pi : PInfo) (ws : List Word) : X.St :=
+def calleeSt (st : X.St) (pi : PInfo) (ws : List Val) : X.St :=
   { st with locals := bindF pi.p.formals ws ++ bindL pi.p.locals, depth := st.depth + 1, calls := pi.p.name :: st.calls }
 
 theorem po_pos (pi : PInfo) : 1 ≤ pi.po := by
@@ -212,9 +218,9 @@ theorem po_pos (pi : PInfo) : 1 ≤ pi.po := by
   split <;> omega
 
 /-- After the prologue, the memory represents the callee's start state. -/
-theorem rep_callee {G : GCtx} (ok : G.OK) {pi : PInfo} (hpi : pi ∈ G.procs) (ws : List Word) (st : X.St)
-    (mem memP : Mem) (spc : Nat) (hg : GRep G st mem)
-    (hargs : ∀ j (hj : j < ws.length), mem.read (spc + pi.po + j) = ws[j])
+theorem rep_callee {G : GCtx} (ok : G.OK) {pi : PInfo} (hpi : pi ∈ G.procs) (ws : List Val) (st : X.St)
+    (mem memP : Mem) (spc : Nat) (hg : GRep G st mem) (hokv : ∀ v ∈ ws, okV v = true)
+    (hargs : ∀ j (hj : j < ws.length), mem.read (spc + pi.po + j) = wordOf G.abase ws[j])
     (hlen : pi.p.formals.length = ws.length)
     (hS : G.S pi ≤ spc) (hP1 : memP.read 1 = BitVec.ofNat 32 (spc - G.S pi))
     (hrest : ∀ w, w ≠ 1 → w ≠ spc → memP.read w = mem.read w) (hlo : G.lo ≤ spc - G.S pi)
@@ -232,9 +238,12 @@ theorem rep_callee {G : GCtx} (ok : G.OK) {pi : PInfo} (hpi : pi ∈ G.procs) (w
     exact hv (ok.noshadow pi hpi n hm)
   exact {
     sp := hP1
-    vals := fun n w h => by simp [KOf] at h
+    vals := by
+      intro n w h
+      have hgv := (ok.rho_ok n w).mpr h
+      exact Or.inr ⟨hglob n (by rw [hgv]; simp), hgv⟩
     vars := by
-      intro n w _ hr
+      intro n w hρ hr
       change X.readName G.xc (calleeSt st pi ws) n = .ok (.int w) at hr
       unfold X.readName at hr
       cases hl : (calleeSt st pi ws).locals.lookup n with
@@ -249,17 +258,21 @@ theorem rep_callee {G : GCtx} (ok : G.OK) {pi : PInfo} (hpi : pi ∈ G.procs) (w
           subst hl'
           obtain ⟨k, f, hk, hfk, hfn, hb⟩ := bindF_lookup _ _ _ _ hlen hf
           subst hb
-          simp only [Except.ok.injEq, Val.int.injEq] at hr
           have hloc := ok.formal_loc pi hpi (spc - G.S pi) k f hfk
           rw [hfn] at hloc
-          refine ⟨spc + pi.po + k, ?_, by omega, ?_⟩
-          · show G.locOf pi (spc - G.S pi) n = _
-            rw [hloc]
-            congr 1
-            omega
-          · have hp := po_pos pi
-            rw [hrest _ (by omega) (by omega), hargs k hk]
-            exact hr
+          cases hvk : ws[k] with
+          | arr r => rw [hvk] at hr; simp [bindB] at hr
+          | int w0 =>
+            rw [hvk] at hr
+            simp only [bindB, Except.ok.injEq, Val.int.injEq] at hr
+            refine ⟨spc + pi.po + k, ?_, by omega, ?_⟩
+            · show G.locOf pi (spc - G.S pi) n = _
+              rw [hloc]
+              congr 1
+              omega
+            · have hp := po_pos pi
+              rw [hrest _ (by omega) (by omega), hargs k hk, hvk]
+              exact hr
         | none =>
           rw [hf] at hl'
           simp only [Option.none_or] at hl'
@@ -274,7 +287,7 @@ theorem rep_callee {G : GCtx} (ok : G.OK) {pi : PInfo} (hpi : pi ∈ G.procs) (w
         | some g =>
           rw [hgv] at hr
           cases g with
-          | val w' => exact absurd hgv (ok.no_vals n w')
+          | val w' => have := (ok.rho_ok n w').mp hgv; rw [show G.rho n = none from hρ] at this; simp at this
           | array id => simp at hr
           | proc q => simp at hr
           | var =>
@@ -316,7 +329,7 @@ theorem rep_callee {G : GCtx} (ok : G.OK) {pi : PInfo} (hpi : pi ∈ G.procs) (w
           simp only [Option.some_or, Option.some.injEq] at hl'
           obtain ⟨k, f, hk, hfk, hfn, hb⟩ := bindF_lookup _ _ _ _ hlen hf
           rw [hb] at hl'
-          simp at hl'
+          cases hvk : ws[k] <;> rw [hvk] at hl' <;> simp [bindB] at hl'
         | none =>
           rw [hf] at hl'
           simp only [Option.none_or] at hl'
@@ -356,7 +369,6 @@ theorem rep_callee {G : GCtx} (ok : G.OK) {pi : PInfo} (hpi : pi ∈ G.procs) (w
       unfold X.readName at hr
       cases hl : (calleeSt st pi ws).locals.lookup n with
       | some b =>
-        exfalso
         rw [hl] at hr
         have hl' : (bindF pi.p.formals ws ++ bindL pi.p.locals).lookup n = some b := hl
         rw [List.lookup_append] at hl'
@@ -367,8 +379,28 @@ theorem rep_callee {G : GCtx} (ok : G.OK) {pi : PInfo} (hpi : pi ∈ G.procs) (w
           subst hl'
           obtain ⟨k, f, hk, hfk, hfn, hb⟩ := bindF_lookup _ _ _ _ hlen hf
           subst hb
-          simp at hr
+          have hloc := ok.formal_loc pi hpi (spc - G.S pi) k f hfk
+          rw [hfn] at hloc
+          have hok := hokv ws[k] (List.getElem_mem hk)
+          cases hvk : ws[k] with
+          | int w0 => rw [hvk] at hr; simp [bindB] at hr
+          | arr r0 =>
+            rw [hvk] at hr hok
+            simp only [bindB, Except.ok.injEq, Val.arr.injEq] at hr
+            subst hr
+            cases r0 with
+            | lit l => simp [okV] at hok
+            | glob id =>
+              refine ⟨id, spc + pi.po + k, rfl, ?_, by omega, ?_⟩
+              · show G.locOf pi (spc - G.S pi) n = _
+                rw [hloc]
+                congr 1
+                omega
+              · have hp := po_pos pi
+                rw [hrest _ (by omega) (by omega), hargs k hk, hvk]
+                rfl
         | none =>
+          exfalso
           rw [hf] at hl'
           simp only [Option.none_or] at hl'
           obtain ⟨hb, _⟩ := bindL_lookup _ _ _ hl'
@@ -382,7 +414,7 @@ theorem rep_callee {G : GCtx} (ok : G.OK) {pi : PInfo} (hpi : pi ∈ G.procs) (w
         | some g =>
           rw [hgv] at hr
           cases g with
-          | val w' => exact absurd hgv (ok.no_vals n w')
+          | val w' => simp at hr
           | proc q => simp at hr
           | var =>
             exfalso
@@ -446,16 +478,16 @@ theorem GRep.frame {G : GCtx} (ok : G.OK) {σ σ' : X.St} {mem mem' : Mem} (h : 
     exact h.consts v l j k hmem hd
 
 theorem callee_correct {G : GCtx} (ok : G.OK) (fuel : Nat) (ih : StmtSpec G fuel) : CallSpec G (fuel + 1) := by
-  intro pi hpi ws st lnk b mem spc k kind n hg hm1 hargs hstack htop hlo hk hlink
+  intro pi hpi ws st lnk b mem spc k kind n hg hm1 hokv hargs hstack htop hlo hk hlink
   rw [callUser_succ]
   by_cases hd : st.depth ≥ X.maxDepth
   · rw [if_pos hd]; trivial
   rw [if_neg hd]
-  by_cases hne : pi.p.formals.length ≠ ws.length
-  · obtain ⟨e, he⟩ := bindFormals_bad _ _ (ok.formals_val pi hpi) hne
-    rw [he]; trivial
-  have hlen : pi.p.formals.length = ws.length := Decidable.not_not.mp hne
-  rw [bindFormals_vals _ _ (ok.formals_val pi hpi) hlen]
+  cases hbf : X.bindFormals pi.p.formals ws with
+  | error e => trivial
+  | ok fb =>
+  obtain ⟨hfb, hlen⟩ := bindFormals_ok _ _ _ hbf
+  subst hfb
   simp only
   rw [bindLocals_vars _ _ (ok.locals_var pi hpi)]
   simp only
@@ -474,7 +506,7 @@ theorem callee_correct {G : GCtx} (ok : G.OK) (fuel : Nat) (ih : StmtSpec G fuel
   -- the prologue
   obtain ⟨a1, memP, stP, hP1, hPl, hPrest⟩ := exec_prologue G.env pi.kind pi.p.name (G.S pi) pi.iPro (ok.at_pro pi hpi)
     lnk b mem spc st.io hm1 (by unfold memWords at *; omega) (ok.code_lo _ hlo) (by omega) ok.code_1 hS
-  have rep := rep_callee ok hpi ws st mem memP spc hg hargs hlen hS hP1 hPrest hlo' (by unfold memWords at *; omega) hspc
+  have rep := rep_callee ok hpi ws st mem memP spc hg hokv hargs hlen hS hP1 hPrest hlo' (by unfold memWords at *; omega) hspc
   have wf := ok.wfs pi hpi (spc - G.S pi) (st.depth + 1) memP.read hlo' (by omega)
   have hbody := ih pi hpi (spc - G.S pi) (st.depth + 1) memP.read hlo' (by omega) (by omega) pi.p.body
     (calleeSt st pi ws) (ok.body_ok pi hpi) pi.gs1 pi.code pi.gs2 (G.iBody pi) a1 (BitVec.ofNat 32 spc) memP
